@@ -149,7 +149,7 @@ def _run_shard(args):
         return 124, "timeout"
 
 
-def eval_cases(ctx, name, imports, case_type, lines, fn="failures", shard=400, timeout=900):
+def eval_cases(ctx, name, imports, case_type, lines, fn="failures", shard=400, timeout=240):
     """Write shards of `Definition cases : list <case_type> := [...]. Eval vm_compute in (fn cases).`
     and return the list of failing global indices (None on a Coq error)."""
     d = os.path.join(ctx.work, name)
@@ -167,8 +167,32 @@ def eval_cases(ctx, name, imports, case_type, lines, fn="failures", shard=400, t
         jobs.append((p, timeout))
     fails = []
     errors = []
+    header = ("From Coq Require Import QArith ZArith List String.\n%s\nImport ListNotations.\n"
+              "Local Close Scope Q_scope.\nOpen Scope string_scope.\nOpen Scope Z_scope.\n" % imports)
     with ThreadPoolExecutor(max_workers=16) as ex:
-        for idx, (rc, out) in enumerate(ex.map(_run_shard, jobs)):
+        results = list(ex.map(_run_shard, jobs))
+        for idx, (rc, out) in enumerate(results):
+            if rc == 124:
+                # a shard ran out of time: evaluate its cases one by one with a short limit; a case the model cannot
+                # evaluate in that time counts as a mismatch (the implementation produced its answer long ago)
+                base = idx * shard
+                single = []
+                for j, ln in enumerate(lines[base:base + shard]):
+                    sp = os.path.join(d, "s%05d_%04d.v" % (idx, j))
+                    with open(sp, "w") as f:
+                        f.write(header + "Definition cases : list %s := [\n%s\n].\nEval vm_compute in (%s cases).\n" % (case_type, ln, fn))
+                    single.append((sp, 25))
+                for j, (rc2, out2) in enumerate(ex.map(_run_shard, single)):
+                    m2 = re.search(r"=\s*\[(.*?)\]\s*:\s*list", out2, flags=re.S) if rc2 == 0 else None
+                    if rc2 == 124 or (m2 and re.findall(r"-?\d+", m2.group(1))):
+                        fails.append(base + j)
+                    elif rc2 != 0 or not m2:
+                        errors.append((single[j][0], out2[-2000:]))
+                    try:
+                        os.remove(single[j][0])
+                    except OSError:
+                        pass
+                continue
             if rc != 0:
                 errors.append((jobs[idx][0], out[-2000:]))
                 continue
@@ -185,7 +209,7 @@ def eval_cases(ctx, name, imports, case_type, lines, fn="failures", shard=400, t
     return fails, errors
 
 
-def eval_term(ctx, imports, term, timeout=300):
+def eval_term(ctx, imports, term, timeout=60):
     """Evaluate one term by vm_compute and return Coq's printed output (for replay files)."""
     p = os.path.join(ctx.work, "term_%s.v" % hashlib.sha1(term.encode()).hexdigest()[:10])
     with open(p, "w") as f:
